@@ -119,6 +119,10 @@ def main():
     ns = sum(1 for k in res if kinds[k][0] == 'seeded')
     print('benign: %d/%d false alarms; seeded: %d/%d missed by own check' % (fa, nb, miss, ns))
     json.dump({k: {p: rc for p, (rc, v) in r.items()} for k, r in res.items()}, open(ROOT + '/last_eval.json', 'w'))
+    if not sel:
+        import re as _re
+        json.dump({k: {p: [(_re.match(r'^(?:VIOLATED|ANCHOR-LOST) (\S+)', l) or [None, l[:60]])[1] for l in v] for p, (rc, v) in r.items() if rc != 0} for k, r in res.items()},
+                  open(ROOT + '/last_eval_detail.json', 'w'))
 
 
 def _run_chunk(ch):
